@@ -1,7 +1,7 @@
 (* C16 — a truncated stream is reported, never mistaken for a complete one.
    Property theorems only; each is closed by [exact] of a lemma proved elsewhere. *)
 From Coq Require Import List NArith.
-From YV Require Import Base.Wire Model.CodedCpp Proofs.CodedCppIn Proofs.Truncation.
+From YV Require Import Base.Wire Model.CodedCpp Proofs.CodedCppIn Proofs.Truncation Model.CodedPy Proofs.CodedPyIn.
 Import ListNotations.
 
 (* The buffered C++ reader of coded_stream.h returns, for EVERY buffer size, input and script,
@@ -31,6 +31,42 @@ Print Assumptions C16_cpp_complete.
 Example C16_hyp_sat :
   aexact [5; 172; 2; 1; 0; 0; 0; 9; 8; 7] [RByte; RVar 32; RFixed 4; RBytes 3]
   = Some [VNum 5; VNum 300; VNum 1; VBytes [9; 8; 7]].
+Proof. vm_compute. reflexivity. Qed.
+
+(* The buffered Python reader of _binary.py (CodedInputStream), for EVERY buffer size, input and script: the values it
+   returns are those of the buffer-less byte-list reader, and where that reader runs out of input it raises
+   (EOFError, or the BufferError that _fill_buffer's slice assignment raises in its place). *)
+Theorem C16_py_reader_refines : forall bufsize input ops, (0 < bufsize)%nat -> Forall (pop_ok bufsize) ops ->
+  map pnorm (prun bufsize (pin_init input) ops) = parun input ops.
+Proof. exact py_reader_refines. Qed.
+Print Assumptions C16_py_reader_refines.
+
+Theorem C16_py_truncated : forall bufsize ops data vs p q, (0 < bufsize)%nat -> Forall (pop_ok bufsize) ops ->
+  paexact data ops = Some vs -> data = p ++ q -> q <> [] ->
+  exists k, (k <= length vs)%nat /\
+            map pnorm (prun bufsize (pin_init p) ops) = map POk (firstn k vs) ++ [PEof].
+Proof. exact py_truncated. Qed.
+Print Assumptions C16_py_truncated.
+
+Theorem C16_py_complete : forall bufsize ops data vs, (0 < bufsize)%nat -> Forall (pop_ok bufsize) ops ->
+  paexact data ops = Some vs -> prun bufsize (pin_init data) ops = map POk vs.
+Proof. exact py_complete. Qed.
+Print Assumptions C16_py_complete.
+
+(* no stale byte of the bytearray is ever returned, the varint loop terminates *)
+Theorem C16_py_outcomes : forall bufsize input ops, (0 < bufsize)%nat -> Forall (pop_ok bufsize) ops ->
+  Forall (fun r => match r with POk _ | PEof | PFault BufferErr => True | _ => False end)
+         (prun bufsize (pin_init input) ops).
+Proof. exact py_reader_outcomes. Qed.
+Print Assumptions C16_py_outcomes.
+
+(* non-vacuity, and the quirk is real: 7 bytes, buffer of 10, two read_byte then an 8-byte read *)
+Example C16_py_hyp_sat :
+  paexact [5; 172; 2; 1; 0; 0; 0; 9; 8; 7] [PByte; PVar; PFixed 4; PBytes 3]
+  = Some [VNum 5; VNum 300; VNum 1; VBytes [9; 8; 7]].
+Proof. vm_compute. reflexivity. Qed.
+Example C16_py_buffer_error_witness :
+  prun 10 (pin_init [1; 2; 3; 4; 5; 6; 7]) [PByte; PByte; PFixed 8] = [POk (VNum 1); POk (VNum 2); PFault BufferErr].
 Proof. vm_compute. reflexivity. Qed.
 
 (* the constants of the model (varint byte budgets, magic bytes, format version, nesting limit, default
